@@ -48,9 +48,15 @@ def setup_worker(tier, seed):
 
 
 def run_case(case):
+    prog = case["prog"] if "prog" in case else progcase.gen_prog(("C19",) + tuple(case["gen"]), profile=case.get("profile", "default"))
+    method = case.get("shuffle") or derive_rng("C19", shash(prog)).choice(["tasks", "disk"])
+    with dask.config.set({"dataframe.shuffle.method": method}):
+        return _run_case(case, prog, method)
+
+
+def _run_case(case, prog, method):
     from dask_expr._expr import optimize_until
 
-    prog = case["prog"] if "prog" in case else progcase.gen_prog(("C19",) + tuple(case["gen"]), profile=case.get("profile", "default"))
     counters, maxes = {}, {}
     rec = {"status": "ok", "counters": counters, "maxes": maxes, "nt": []}
 
@@ -60,7 +66,7 @@ def run_case(case):
     b = progcase.Built(prog).build_sources()
     try:
         b.eval_pd()
-        b.eval_dx()
+        b.eval_dx(method)
     except Exception:
         return {"status": "refused", "counters": {"build_refused": 1}}
     q = b.out_dx
@@ -106,7 +112,7 @@ def run_case(case):
             gc.collect()
             o3 = q.expr.optimize()
             b2 = progcase.Built(prog).build_sources()
-            b2.eval_dx()
+            b2.eval_dx(method)
             o4 = b2.out_dx.expr.optimize()
             bump("repetitions_compared", 3)
             for tag, o in (("repeat", o2), ("after-gc", o3), ("rebuilt", o4)):
@@ -119,7 +125,6 @@ def run_case(case):
             return {"status": "undecided", "counters": {"optimize_raises": 1}}
     if viol is None:
         # idempotence: optimizing an optimized collection leaves its result unchanged and never raises
-        method = derive_rng("C19", shash(prog)).choice(["tasks", "disk"])
         with dask.config.set({"dataframe.shuffle.method": method}):
             try:
                 with M.Guard():
@@ -155,7 +160,7 @@ def run_case(case):
         viol["src"] = programs.program_source(prog)
         rec["status"] = "violation"
         rec["viol"] = viol
-        rec["case"] = {"prog": prog}
+        rec["case"] = {"prog": prog, "shuffle": method}
     if case.get("gen") and case["gen"][1] in (2, 9):
         rec["sample"] = {"program": programs.program_source(prog), "nodes": nodes, "budget": budget, "steps": dict(maxes)}
     return rec
